@@ -41,6 +41,8 @@ fn dur_name(d: Option<Duration>) -> String {
 enum What {
     Construction,
     Target(usize),
+    /// every combination of extra request settings through the generic dispatch of this game
+    Extra(&'static str),
 }
 
 fn targets() -> &'static Vec<Target> {
@@ -59,6 +61,9 @@ fn cases() -> Vec<(String, What)> {
     for (i, t) in targets().iter().enumerate() {
         v.push((format!("every accepted configuration through {}", t.name), What::Target(i)));
     }
+    for id in ["teamfortress2", "counterstrike", "killingfloor", "minecraftjava", "minecraft", "minecraftbedrock", "crysiswars", "q3a", "mindustry"] {
+        v.push((format!("every combination of extra request settings through the generic dispatch of '{id}'"), What::Extra(id)));
+    }
     v
 }
 
@@ -73,7 +78,7 @@ impl Prop for C18 {
          usize::MAX} = 625 configurations x construction path {TimeoutSettings::new, Default, serde_json deserialisation, clap \
          flags (a harness-side Parser flattening TimeoutSettings; second-granularity values only)}: a zero duration must be \
          rejected (InvalidInput / deserialisation error / clap error) on every path. Every configuration accepted by `new` is \
-         then used for a query through every protocol entry point that takes timeout settings, once against the valid \
+         then used for a query through every protocol entry point that takes timeout settings (and every combination of extra request settings — host name, protocol version, gather toggles, app-id check — through the generic dispatch of nine games), once against the valid \
          reference server and, for retries <= 2, once against a silent one: no panic. The hook keeps the real apply_timeout \
          running on a real socket object. distinct_nontrivial = distinct (configuration, outcome class) pairs"
             .into()
@@ -169,6 +174,53 @@ impl Prop for C18 {
                     ctx.violation("zero-duration-accepted:default", &[], "Default", format!("{d:?}"), "non-zero durations", vec![]);
                 }
                 ctx.sample(serde_json::json!({"case": label, "configurations": 625, "paths": ["new", "serde", "clap", "default"]}));
+            }
+            What::Extra(id) => {
+                use gamedig::protocols::types::{ExtraRequestSettings, GatherToggle};
+                let game = gamedig::GAMES.get(id).unwrap();
+                let fam = family_of_game(game).unwrap();
+                let hosts: [Option<String>; 4] = [None, Some(String::new()), Some(crate::rsm::long_string(300)), Some("zürich.例え".to_string())];
+                let versions: [Option<i32>; 5] = [None, Some(i32::MIN), Some(-1), Some(0), Some(i32::MAX)];
+                let toggles: [Option<GatherToggle>; 4] = [None, Some(GatherToggle::Skip), Some(GatherToggle::Try), Some(GatherToggle::Enforce)];
+                let checks: [Option<bool>; 3] = [None, Some(true), Some(false)];
+                let tss = [None, TimeoutSettings::new(Some(Duration::from_nanos(1)), Some(Duration::from_nanos(1)), Some(Duration::from_nanos(1)), 2).ok()];
+                let mut n = 0u64;
+                for (hi, h) in hosts.iter().enumerate() {
+                    for (vi, pv) in versions.iter().enumerate() {
+                        for (pi, gp) in toggles.iter().enumerate() {
+                            for (ri, gr) in toggles.iter().enumerate() {
+                                for (ci, chk) in checks.iter().enumerate() {
+                                    for (ti, ts) in tss.iter().enumerate() {
+                                        n += 1;
+                                        let key = vec![hi as u32, vi as u32, pi as u32, ri as u32, ci as u32, ti as u32];
+                                        if matches!(&ctx.replay, Some(rp) if *rp != key) {
+                                            continue;
+                                        }
+                                        let extra = ExtraRequestSettings { hostname: h.clone(), protocol_version: *pv, gather_players: *gp, gather_rules: *gr, check_app_id: *chk };
+                                        let server = if matches!(fam, Family::McAuto) { mc_server(31) } else { (server_for_game(game).unwrap())() };
+                                        let e2 = extra.clone();
+                                        let x = run_query(server, Box::new(Faithful), Chooser::new(&[]), || {
+                                            gamedig::query_with_timeout_and_extra_settings(game, &IP4, Some(PORT), *ts, Some(e2)).map(|r| to_json(&r.as_json()))
+                                        });
+                                        ctx.account(&x, 0);
+                                        ctx.distinct_key(&(key.clone(), x.outcome.class()));
+                                        if !x.outcome.is_total() {
+                                            ctx.violation(
+                                                format!("accepted-extra-settings-{}", if matches!(x.outcome, Outcome::Panic { .. }) { "panic" } else { "hang" }),
+                                                &key,
+                                                format!("game '{id}' with {extra:?} and timeouts {}", if ts.is_some() { "1 ns / retries 2" } else { "None" }),
+                                                x.outcome.describe_json(),
+                                                "Ok or Err",
+                                                render_log(&x.log),
+                                            );
+                                        }
+                                    }
+                                }
+                            }
+                        }
+                    }
+                }
+                ctx.sample(serde_json::json!({"case": label, "combinations": n}));
             }
             What::Target(i) => {
                 let t = targets()[i].clone();
